@@ -298,6 +298,34 @@ func (ex *Exec) intrinsic(f *ssa.Function) intrinsicFn {
 			ex.usedAssume["A-ERRGROUP: errgroup.Group.Wait returns an unconstrained error value (nil after a clean shutdown)"] = true
 			return callOut{v: Scalar{e}}
 		}
+	case "(*github.com/urfave/cli/v2.Context).Bool", "(*github.com/urfave/cli/v2.Context).IsSet", "(*github.com/urfave/cli/v2.Context).String",
+		"(*github.com/urfave/cli/v2.Context).Path", "(*github.com/urfave/cli/v2.Context).Int", "(*github.com/urfave/cli/v2.Context).StringSlice",
+		"(*github.com/urfave/cli/v2.Context).Duration":
+		// trusted (A-CLI): the value / presence of a flag is a function of the
+		// context and the flag name (flags and environment variables are
+		// resolved by urfave/cli; not modelled further)
+		return func(ex *Exec, s *State, instr ssa.Instruction, args []Val) callOut {
+			c := args[0].(PtrV).Base
+			n := ex.asScalar(args[1])
+			ex.usedAssume["A-CLI: urfave/cli resolves flags and environment variables; Context.Bool/String/Path/Int/IsSet/StringSlice are functions of the context and the flag name"] = true
+			app := func(f string, so Sort) Term { return Term{fmt.Sprintf("(%s %s %s)", f, c.S, n.S), so} }
+			switch {
+			case strings.HasSuffix(name, ".Bool"):
+				return callOut{v: Scalar{app("flag_bool", SBool)}}
+			case strings.HasSuffix(name, ".IsSet"):
+				return callOut{v: Scalar{app("flag_set", SBool)}}
+			case strings.HasSuffix(name, ".String"), strings.HasSuffix(name, ".Path"):
+				r := app("flag_str", SStr)
+				ex.assumeWF(s, r, types.Typ[types.String])
+				return callOut{v: Scalar{r}}
+			case strings.HasSuffix(name, ".StringSlice"):
+				r := app("flag_strs", SSlice)
+				ex.assumeWF(s, r, nil)
+				return callOut{v: Scalar{r}}
+			default:
+				return callOut{v: Scalar{app("flag_int", SBV(64))}}
+			}
+		}
 	case "(time.Duration).Seconds":
 		return func(ex *Exec, s *State, instr ssa.Instruction, args []Val) callOut {
 			// floating point is not modelled: an unconstrained value
